@@ -4,7 +4,9 @@ from __future__ import annotations
 from common import rng
 from framework import Sweep
 import corr_ver
-from gen_ver import CLS, base_strings, exhaustive_pkg_small, parse_ok, pkg_strings, sem_strings
+import re
+
+from gen_ver import CLS, base_strings, exhaustive_pkg_small, parse_ok, pkg_strings, sem_same_release, sem_strings
 
 RULE = ("(class, version, part) for every part the class lists as valid, versions from the bounded grammars of C07; operation sequences of "
         "length <= 6 applied to one receiver with to_tuple()/str/hash snapshots; distinct = distinct (class, version, part) or (class, version, ops)")
@@ -21,7 +23,10 @@ def sweep(tier: str) -> Sweep:
     r = rng("C13")
     sw = Sweep("C13")
     n = 80 if tier == "quick" else 600
-    pools = {"base": base_strings(r, n), "sem": sem_strings(r, n), "pkg": pkg_strings(r, n) + r.sample(exhaustive_pkg_small(), min(4 * n, 1400))}
+    carry = [f"{rel}{seg}" for rel in ("1.0", "1.2.3", "2!0.0.9") for seg in ("rc9", "rc.9", "a99", ".post9", "-9", ".post.99", ".dev9", "dev99", "rc9.post9.dev9", "b09", ".post09", "rc", ".post", ".dev")]
+    pools = {"base": base_strings(r, n) + ["9.9.9", "99.99.99", "0.0.0", "0.9.0"],
+             "sem": sem_strings(r, n) + [s for ss in sem_same_release().values() for s in ss] + ["1.0.3-rc.1", "1.2.0-rc.1", "1.0.0-rc.1", "0.0.0-rc", "1.0.3+b", "1.2.0+b"],
+             "pkg": pkg_strings(r, n) + carry + r.sample(exhaustive_pkg_small(), min(4 * n, 1400))}
     for c, strs in pools.items():
         cls = CLS[c]
         objs = [(s, o) for s in dict.fromkeys(strs) if (o := parse_ok(cls, s)) is not None]
@@ -31,6 +36,11 @@ def sweep(tier: str) -> Sweep:
             before = (o.to_tuple(), str(o), hash(o))
             for part in valid:
                 case = {"cls": c, "v": s, "part": part}
+                if c == "sem" and part == "pre" and o.pre:
+                    # how the class reads the tag: letters+number (compared numerically) or plain text
+                    case["pre_kind"] = "letter+number" if re.fullmatch(r"[._-]?[a-zA-Z]+[._-]?\d+", o.pre) else "text"
+                    m_ = re.findall(r"\d+", o.pre)
+                    case["carry"] = bool(m_) and set(m_[-1]) == {"9"}
                 sw.note(["next", c, s, part], part)
                 try:
                     nv = o.next_version(part)
@@ -54,10 +64,11 @@ def sweep(tier: str) -> Sweep:
                 if part in ("epoch", "major", "minor"):
                     rel = ["epoch", "major", "minor", "patch"]
                     lowers = rel[rel.index(part) + 1:]
-                    if part == "minor" or part == "major" or part == "epoch":
-                        bumped = getattr(nv, part) == getattr(o, part, 0) + 1
-                        if bumped:
-                            sw.check(all(getattr(nv, q) == 0 for q in lowers), "lower-order parts are not reset", {**case, "clause": "reset"}, None, str(nv))
+                    sw.check(all(getattr(nv, q) == 0 for q in lowers), "lower-order parts are not reset", {**case, "clause": "reset"}, None, str(nv))
+                if part in ("major", "minor", "patch") and c != "base" or part == "epoch":
+                    for q in ("pre", "post", "dev", "local", "build"):
+                        if hasattr(nv, q):
+                            sw.check(not getattr(nv, q), "lower-order segments are not reset", {**case, "clause": "reset-seg"}, None, str(nv))
                 sw.check(nv is not o, "next_version returned the receiver itself", {**case, "clause": "new-object"})
             # bump_major / minor / patch
             for which, exp in (("major", (o.major + 1, 0, 0)), ("minor", (o.major, o.minor + 1, 0)), ("patch", (o.major, o.minor, o.patch + 1))):
